@@ -18,8 +18,8 @@ RULE = (
     "enumeration: all signatures with <=5 (quick) / <=6 (thorough) parameters over kinds "
     "{positional-only, positional-or-keyword, *args, keyword-only, **kwargs} x default/no default, "
     "all call shapes (n positional incl. surplus for *args, remaining by keyword or omitted, 0-2 surplus "
-    "keywords for **kwargs incl. one spelled like a positional-only parameter), carriers function and bound "
-    "method, every ignore list of size <=2 over the keys of the expected mapping; calls Python rejects "
+    "keywords for **kwargs incl. one spelled like a positional-only parameter and, for methods with a positional-only self, one spelled 'self'), carriers function, bound "
+    "method and 'twin' (a second function object built from the same code object with other default values, examined after its sibling), every ignore list of size <=2 over the keys of the expected mapping; calls Python rejects "
     "(TypeError) are skipped.  evaluations = filter_args results compared.  A case is non-trivial when the signature has >=2 "
     "parameter kinds or a default AND the call omits or keyword-passes >=1 parameter; distinct = (signature, call, "
     "carrier, ignore list)."
@@ -102,18 +102,38 @@ def _show(d):
 _cache = {}
 
 
+def _twin(f):
+    """Another function object made from the SAME code object with other default values (what a closure factory or a
+    loop of lambdas produces): the signature of a function is not a property of its code object."""
+    import types
+    if not (f.__defaults__ or f.__kwdefaults__):
+        return None
+    t = types.FunctionType(f.__code__, f.__globals__, f.__name__, tuple("e" + d[1:] for d in (f.__defaults__ or ())) or None, f.__closure__)
+    if f.__kwdefaults__:
+        t.__kwdefaults__ = {k: "e" + v[1:] for k, v in f.__kwdefaults__.items()}
+    return t
+
+
 def _funcs_for(sig, scratch):
     key = repr(sig)
     if key not in _cache:
         _, funcs, meths, _ = S.build_module([sig], scratch)
-        _cache[key] = (funcs[0], meths[0])
+        _cache[key] = (funcs[0], meths[0], _twin(funcs[0]))
     return _cache[key]
 
 
 def run_case(spec):
     scratch = os.environ.get("VF_SCRATCH", "/tmp")
-    f, m = _funcs_for(spec["sig"], scratch)
-    func = f if spec["carrier"] == "f" else m
+    f, m, t = _funcs_for(spec["sig"], scratch)
+    func = {"f": f, "m": m, "t": t}[spec["carrier"]]
+    if spec["carrier"] == "t":
+        # the twin is looked at after its sibling, as in the enumeration
+        from joblib.func_inspect import filter_args
+        a0, k0 = S.call_args(spec["call"])
+        try:
+            filter_args(f, [], a0, dict(k0))
+        except Exception:
+            pass
     r = check_binding(func, spec["sig"], spec["call"], spec["carrier"], spec["ignore"])
     if r is None:
         return {"nontrivial": False, "classes": ["rejected-by-bind"]}
@@ -128,8 +148,13 @@ def shard(ctx):
     st = ctx.stats
     for sig, f, m in zip(mine, funcs, meths):
         calls = S.enum_calls(sig)
-        for call in calls:
-            for carrier, func in (("f", f), ("m", m)):
+        kinds = [k for k, _ in sig]
+        # bound methods whose `self` is positional-only: a surplus keyword spelled 'self' goes to **kwargs
+        self_kw = [dict(c, extra=c["extra"] + ["self"]) for c in calls if len(c["extra"]) < 2] if ("vk" in kinds and "po" in kinds) else []
+        for call in calls + self_kw:
+            for carrier, func in (("f", f), ("m", m), ("t", _twin(f))):
+                if func is None or ("self" in call["extra"] and carrier != "m"):
+                    continue
                 args, kwargs = S.call_args(call)
                 exp = S.expected_binding(func, args, kwargs)
                 if exp is None:
